@@ -71,10 +71,17 @@ func has(list []string, s string) bool {
 	return false
 }
 
-func handshakeBody(cfg hsCfg, carriers []carrier) vsched.Body {
+func handshakeBody(cfg hsCfg, carriers []carrier, overlap bool) vsched.Body {
 	return func(x *vsched.Exec) {
 		w := NewWorld(x, cfg.opts())
 		seen := map[string]bool{}
+		type later struct {
+			pc   *PollClient
+			i    int
+			k    carrier
+			what string
+		}
+		var laters []later
 		for i, k := range carriers {
 			fp := "[" + k.transport + "]"
 			what := fmt.Sprintf("session %d via %s, %s", i+1, k, cfg)
@@ -96,7 +103,11 @@ func handshakeBody(cfg hsCfg, carriers []carrier) vsched.Body {
 				pkts, err = pc.DecodeResp(r)
 				if err == nil && cfg.initial != 0 && len(pkts) > 0 {
 					// the open packet answers the handshake request; what follows arrives with the next poll
-					if open, e := ParseOpen(pkts[0]); e == nil && len(pkts) == 1 {
+					if open, e := ParseOpen(pkts[0]); e == nil && len(pkts) == 1 && overlap {
+						// overlapped mode: every session handshakes before any of them polls
+						pc.Sid, _ = open["sid"].(string)
+						laters = append(laters, later{pc, i, k, what})
+					} else if e == nil && len(pkts) == 1 {
 						pc.Sid, _ = open["sid"].(string)
 						r2 := pc.Get()
 						x.Settle()
@@ -177,7 +188,9 @@ func handshakeBody(cfg hsCfg, carriers []carrier) vsched.Body {
 				x.Fail("open-upgrades%s: advertised %v, expected %v (%s)", fp, got, want, what)
 			}
 			rest := pkts[1:]
-			if cfg.initial != 0 {
+			if overlap && k.transport == "polling" && cfg.initial != 0 && len(rest) == 0 {
+				// checked after all handshakes
+			} else if cfg.initial != 0 {
 				wantInit := Msg("hello €")
 				if cfg.initial == 2 {
 					wantInit = MsgBin([]byte{0, 1, 0xff})
@@ -197,6 +210,18 @@ func handshakeBody(cfg hsCfg, carriers []carrier) vsched.Body {
 			}
 			if rec.Sock.Transport().Name() != k.transport {
 				x.Fail("transport-name%s: %s (%s)", fp, rec.Sock.Transport().Name(), what)
+			}
+		}
+		for _, l := range laters {
+			r2 := l.pc.Get()
+			x.Settle()
+			more, err := l.pc.DecodeResp(r2)
+			wantInit := Msg("hello €")
+			if cfg.initial == 2 {
+				wantInit = MsgBin([]byte{0, 1, 0xff})
+			}
+			if err != nil || len(more) == 0 || !pktEqual(more[0], wantInit) {
+				x.Fail("initial-packet[polling overlapped]: first poll of session %d (after all handshakes) returned %s err=%v, expected first message %s (%s)", l.i+1, fmtPkts(more), err, wantInit, l.what)
 			}
 		}
 		x.Outcome = fmt.Sprintf("%d sessions", len(w.Socks))
@@ -250,7 +275,11 @@ func init() {
 											seq := []carrier{ks[s%len(ks)], ks[(s+1)%len(ks)], ks[(s+2)%len(ks)]}
 											id := fmt.Sprintf("%s | %v", cfg, seq)
 											n++
-											c.Once(id, handshakeBody(cfg, seq))
+											c.Once(id, handshakeBody(cfg, seq, false))
+											if cfg.initial != 0 && has(set, "polling") {
+												n++
+												c.Once(id+" overlapped", handshakeBody(cfg, seq, true))
+											}
 											if n%997 == 1 {
 												c.Sample(id)
 											}
